@@ -104,7 +104,8 @@ def gen_case(rng, idx, sdir):
         s = S(name, rng.choice(["t", "u", "Hardware/Amplifier", "Mixed Case", "UPPER"]), props(rng.choice([0, 1, 2]), "tp"),
               definition=rng.choice([None, "target def"]), reference=rng.choice([None, "tref"]))
         if depth > 0:
-            s["sections"] = [tsec("%s_%d" % (name, i), depth - 1) for i in range(rng.choice([0, 1, 2]))]
+            # (one name in ten carries a '#', the character that separates the url from the path in an include)
+            s["sections"] = [tsec("%s_%d%s" % (name, i, "#2" if rng.random() < 0.1 else ""), depth - 1) for i in range(rng.choice([0, 1, 2]))]
             if s["sections"] and rng.random() < 0.15:
                 # Sections and Properties have separate name spaces: a Property may carry the name of a sub-Section
                 twin = props(1, "tw")[0]
